@@ -672,7 +672,7 @@ Proof.
         intros p cx' Hr; try discriminate. inversion Hr; reflexivity. }
     cbn [negb] in H.
     destruct (inst_row_none pe pn row (log ++ [EvRow pos false])) as [inc [mv Hi]].
-    cbn [inst_row_incl] in H. rewrite Hi in H.
+    cbn [inst_row_incl inst_row_incl_f] in H. rewrite Hi in H.
     assert (Hbase : exists ev, log ++ [EvRow pos false] = log ++ ev /\ Forall untemplated_row ev).
     { exists [EvRow pos false]. split; [reflexivity|]. constructor; [exact I|constructor]. }
     destruct (end_check bt (rk row)).
@@ -720,7 +720,7 @@ Proof.
     destruct (rk r); reflexivity. }
   assert (H : forall bt pos cx log, parse_block pe pn sc em tl rows fuel bt true pos cx log = parse_block pe' pn' sc em tl rows fuel bt true pos cx log).
   { induction fuel as [|f IH]; intros bt pos cx log; cbn [parse_block]; [reflexivity|].
-    destruct (nth_error rows pos); [|reflexivity]. cbn [inst_row_incl]. rewrite Hi.
+    destruct (nth_error rows pos); [|reflexivity]. cbn [inst_row_incl inst_row_incl_f]. rewrite Hi.
     destruct (inst_row pe' pn' None s (log ++ [EvRow pos (negb true)])) as [l2 [[inc mv]|e]]; [|reflexivity].
     destruct (end_check bt (rk s)); try reflexivity. cbn [orb].
     destruct (rk s); try apply IH.
@@ -732,20 +732,64 @@ Qed.
 (* a ROW whose include_if evaluates to "false": its other cell is never handed to the template
    engine (the log gains at most the rendering of the inclusion cell itself), whatever it
    contains — an unknown variable in it is not an error — and the row is reported excluded *)
+(* the excluded branch of the pre-check: the row is parsed without templating, inclusion cell "false" *)
+Lemma excluded_branch pe pn k m log :
+  exists mv, inst_row pe pn None (mk_srow k cell_false m) log = (log, Ok (false, mv)).
+Proof.
+  unfold inst_row, log_render. cbn [renders andb r_inc r_main rk]. rewrite !parse_as_string_none.
+  cbn [to_include].
+  assert (Hinc : str_to_include (strip (show_cell cell_false)) = false) by (vm_compute; reflexivity).
+  rewrite Hinc.
+  destruct k eqn:Ek; rewrite ?parse_as_string_none, ?parse_none; cbn [to_text];
+    try (eexists; reflexivity).
+  destruct (split_into_lists (strip (show_cell m))) eqn:Es; cbn [to_entries]; eexists; reflexivity.
+Qed.
+
+Theorem excluded_row_not_evaluated_f : forall fx pe pn cx r log pi s,
+  parse_as_string_m pe pn (Some cx) (r_inc r) = Ok pi ->
+  to_text pn pi = Ok s ->
+  str_eqb (lower (strip s)) [102; 97; 108; 115; 101]%N = true ->
+  exists mv, inst_row_incl_f pe pn fx (Some cx) r log = (log_render (Some cx) (r_inc r) log, Ok (false, mv)).
+Proof.
+  intros fx pe pn cx r log pi s Hp Ht Hf. unfold inst_row_incl_f, precheck_excluded. rewrite Hp, Ht, Hf.
+  apply excluded_branch.
+Qed.
+
 Theorem excluded_row_not_evaluated : forall pe pn cx r log pi s,
   parse_as_string_m pe pn (Some cx) (r_inc r) = Ok pi ->
   to_text pn pi = Ok s ->
   str_eqb (lower (strip s)) [102; 97; 108; 115; 101]%N = true ->
   exists mv, inst_row_incl pe pn (Some cx) r log = (log_render (Some cx) (r_inc r) log, Ok (false, mv)).
+Proof. intros. unfold inst_row_incl. eapply excluded_row_not_evaluated_f; eassumption. Qed.
+
+(* an inclusion STRING that the row parser reads as False says "false" *)
+Lemma str_to_include_false s : str_to_include s = false -> str_eqb (lower (strip s)) [102; 97; 108; 115; 101]%N = true.
 Proof.
-  intros pe pn cx r log pi s Hp Ht Hf. unfold inst_row_incl. rewrite Hp, Ht, Hf.
-  unfold inst_row, log_render. cbn [renders andb r_inc r_main rk]. rewrite !parse_as_string_none.
-  cbn [to_include]. 
-  assert (Hinc : str_to_include (strip (show_cell cell_false)) = false) by (vm_compute; reflexivity).
-  rewrite Hinc.
-  destruct (rk r) eqn:Ek; rewrite ?parse_as_string_none, ?parse_none; cbn [to_text];
-    try (eexists; reflexivity).
-  destruct (split_into_lists (strip (show_cell (r_main r)))) eqn:Es; cbn [to_entries]; eexists; reflexivity.
+  unfold str_to_include. destruct (strip s) as [|c t] eqn:E; [discriminate|].
+  intros H. apply Bool.negb_false_iff in H. exact H.
+Qed.
+
+(* on a tree whose pre-check reads the value as the row parser will (fx = true): a row excluded by ANY inclusion value —
+   the string "false" or a falsy object, {@ none @}, {@ 0 @}, {@ [] @}, {@ {} @} — has no other cell handed to the template
+   engine, whatever the cell contains; for every row, context, policy *)
+Theorem falsy_excluded_row_not_evaluated : forall pe pn cx r log pi s,
+  parse_as_string_m pe pn (Some cx) (r_inc r) = Ok pi ->
+  to_text pn pi = Ok s ->
+  to_include pn pi = Ok false ->
+  exists mv, inst_row_incl_f pe pn true (Some cx) r log = (log_render (Some cx) (r_inc r) log, Ok (false, mv)).
+Proof.
+  intros pe pn cx r log pi s Hp Ht Hi.
+  destruct (str_eqb (lower (strip s)) [102; 97; 108; 115; 101]%N) eqn:Hf.
+  - exact (excluded_row_not_evaluated_f true pe pn cx r log pi s Hp Ht Hf).
+  - unfold inst_row_incl_f, precheck_excluded. rewrite Hp, Ht, Hf.
+    destruct pi as [s0|v|n].
+    + cbn [to_text] in Ht. inversion Ht; subst s0. cbn [to_include] in Hi. inversion Hi as [Hi'].
+      rewrite (str_to_include_false _ Hi') in Hf. discriminate.
+    + destruct v; cbn [to_include] in Hi; try (rewrite Hi; cbn [negb]; apply excluded_branch).
+      cbn [to_text] in Ht. inversion Hi as [Hi'].
+      assert (Hs : s = s0) by (unfold to_str in Ht; cbn in Ht; congruence).
+      subst. rewrite (str_to_include_false _ Hi') in Hf. discriminate.
+    + cbn [to_text] in Ht. discriminate.
 Qed.
 
 (* ------------------------------------------------------------------ non-vacuity *)
